@@ -225,6 +225,11 @@ func (f *Frame) execAlloc(x *ssa.Alloc) {
 	el := x.Type().Underlying().(*types.Pointer).Elem()
 	r := vc.allocRef(f.cur, orDefault(x.Comment, x.Name()), f.guard)
 	f.vals[x] = Val{r, "Int"}
+	if el.String() == "bytes.Buffer" {
+		vc.regBuf()
+		vc.set(f.cur, "BufLen", store(vc.get(f.cur, "BufLen"), r, "0"))
+		return
+	}
 	switch {
 	case isStruct(el):
 		for _, l := range structLeaves(el, nil) {
@@ -737,6 +742,10 @@ func (f *Frame) instrWrites(in ssa.Instruction) ([]string, bool) {
 	case *ssa.Alloc:
 		el := x.Type().Underlying().(*types.Pointer).Elem()
 		out := []string{"next"}
+		if el.String() == "bytes.Buffer" {
+			vc.regBuf()
+			return []string{"next", "BufLen"}, false
+		}
 		if isStruct(el) {
 			for _, l := range structLeaves(el, nil) {
 				n, _ := vc.regField(el, l.path)
